@@ -40,5 +40,6 @@ FUNCTIONS = {
 
 EXTERNS = {
   'AsyncResult.ready': dict(params=[], returns='bool', ensures=['result == self.g_ready']),
-  'AsyncResult.rawlink': dict(params=[('callback', 'any')], notes='registers a completion callback; gevent runs it once, later, in registration order (assumed)'),
+  'AsyncResult.rawlink': dict(params=[('callback', 'any')], modifies=['AsyncResult.g_links'],
+                              ensures=['self.g_links == old(self.g_links) + 1', 'forall_ref(a, AsyncResult, implies(a != self, a.g_links == old(a.g_links)), a.g_links)'], notes='registers a completion callback; gevent runs it once, later, in registration order (assumed)'),
 }
